@@ -477,6 +477,67 @@ static string do_e1s(const vector<string> &a) {
   return "t=" + trace + ";delivered=" + vh::str(delivered) + ";spec=" + vh::str(all ? 1 : 0);
 }
 
+// ---------------------------------------------------------------- E1.31, one sender, many universes
+static vector<uint8_t> multi_frame(const vector<uint8_t> &base, unsigned i, unsigned r) {
+  vector<uint8_t> f = base;
+  f[0] = static_cast<uint8_t>(f[0] + 31 * r + i);
+  if (f.size() > 1) f[1] = static_cast<uint8_t>(f[1] + r);
+  return f;
+}
+static string do_e1m(const vector<string> &a) {
+  // e1m <rev2> <ubase> <N> <rounds> <priority> <sampled indices, comma separated> <base frame>
+  using ola::acn::E131Node;
+  bool rev2 = vh::num(a[1]) != 0;
+  unsigned ubase = vh::num(a[2]), n = vh::num(a[3]), rounds = vh::num(a[4]), prio = vh::num(a[5]);
+  vector<string> ss_ = vh::split(a[6], ',');
+  vector<unsigned> sampled;
+  for (size_t k = 0; k < ss_.size(); k++) sampled.push_back(vh::num(ss_[k]));
+  vector<uint8_t> base = vh::unhex(a[7]);
+  ola::io::SelectServer ss;
+  E131Node::Options opts;
+  opts.use_rev2 = rev2;
+  opts.source_name = "multi";
+  uint8_t cid_bytes[16];
+  for (int k = 0; k < 16; k++) cid_bytes[k] = k + 1;
+  E131Node txn(&ss, "", opts, ola::acn::CID::FromData(cid_bytes));
+  for (int k = 0; k < 16; k++) cid_bytes[k] = 0x80 + k;
+  E131Node rxn(&ss, "", opts, ola::acn::CID::FromData(cid_bytes));
+  txn.m_interface = iface(); rxn.m_interface = iface();
+  txn.m_socket.Init(); rxn.m_socket.Init();
+  vector<DmxBuffer*> bufs(n, static_cast<DmxBuffer*>(NULL));
+  vector<DmxBuffer> store(sampled.size());
+  uint8_t prio_out = 0;
+  for (size_t k = 0; k < sampled.size(); k++) {
+    bufs[sampled[k]] = &store[k];
+    rxn.m_dmp_inflator.SetHandler(ubase + sampled[k], &store[k], &prio_out, ola::NewCallback(&on_data));
+  }
+  string trace;
+  unsigned delivered = 0, stray = 0, expected = 0;
+  for (unsigned r = 0; r < rounds; r++) {
+    for (unsigned i = 0; i < n; i++) {
+      vector<uint8_t> f = multi_frame(base, i, r);
+      DmxBuffer tx;
+      tx_fill(&tx, f, NULL);
+      g_sent.clear();
+      bool sent = txn.SendDMX(ubase + i, tx, prio, false);
+      if (!sent || g_sent.size() != 1) return "t=notsent";
+      int before = g_calls;
+      g_rx = g_sent[0]; g_rx_valid = true; set_source();
+      rxn.m_incoming_udp_transport.Receive();
+      if (bufs[i]) {
+        expected++;
+        bool ok = g_calls == before + 1 && buf_s(*bufs[i]) == vh::hex(f);
+        if (ok) delivered++;
+        trace += ok ? "1" : "0";
+      } else if (g_calls != before) {
+        stray++;
+      }
+    }
+  }
+  return "t=" + trace + ";stray=" + vh::str(stray) + ";delivered=" + vh::str(delivered) +
+         ";spec=" + vh::str((delivered == expected && stray == 0) ? 1 : 0);
+}
+
 static string handle(const string &p) {
   vector<string> a = vh::split(p);
   const string &op = a[0];
@@ -485,6 +546,7 @@ static string handle(const string &p) {
   if (op == "snd" && a.size() == 8) return do_sn(a);
   if (op == "an2" && a.size() == 11) return do_an2(a);
   if (op == "e1s" && a.size() == 7) return do_e1s(a);
+  if (op == "e1m" && a.size() == 8) return do_e1m(a);
   if (op == "dec" && a.size() == 4) return do_dec(a);
   if (op == "sn" && a.size() == 7) return do_sn(a);
   if (op == "sa" && a.size() == 8) return do_sa(a);
